@@ -432,7 +432,7 @@ private:
        /// using row_buffer_helper_t = Buffer;
        /// not working? I get compiler error with MSVC10.
        /// read_stripped_data IS working.
-       using row_buffer_helper_t = detail::row_buffer_helper_view<View>;
+       using row_buffer_helper_t = Buffer;
 
        using it_t = typename row_buffer_helper_t::iterator_t;
 
@@ -555,7 +555,7 @@ private:
        /// using row_buffer_helper_t = Buffer;
        /// not working? I get compiler error with MSVC10.
        /// read_stripped_data IS working.
-       using row_buffer_helper_t = detail::row_buffer_helper_view<View>;
+       using row_buffer_helper_t = Buffer;
 
        using it_t = typename row_buffer_helper_t::iterator_t;
 
